@@ -286,7 +286,7 @@ package mcp
 //@ type sseClientTransport
 //@   private[C07] endpointReceived, endpointChan writers handleEndpointEvent
 //@   owns endpointChan
-//@   private[C07] responses writers close
+//@   private[C07] responses writers close, sendRequestInternal
 //@   invariant self.responses != nil
 //@   invariant[C07 endpoint-latch-closed-only-after-the-flag-is-set] self.endpointChan != nil && (!self.endpointReceived ==> !closed(self.endpointChan))
 //@ type stdioClientTransport
@@ -482,8 +482,8 @@ package mcp
 //@ func httpServerHandler.ServeHTTP
 //@   requires status(w) == 0
 //@   ensures[C03,C06 every-request-gets-a-status] status(w) != 0
-//@   ensures[C03,C06 wrong-path-is-404] !(h.serverPath == "" || r.URL.Path == h.serverPath) ==> status(w) == 404
-//@   ensures[C03,C04 unknown-verb-or-disabled-listening-stream-is-405] (h.serverPath == "" || r.URL.Path == h.serverPath) && r.Method != "POST" && r.Method != "DELETE" && (r.Method != "GET" || !h.enableGetSSE) ==> status(w) == 405
+//@   ensures[C03,C06 wrong-path-is-404] !(h.serverPath == "" || old(r.URL.Path) == h.serverPath) ==> status(w) == 404
+//@   ensures[C03,C04 unknown-verb-or-disabled-listening-stream-is-405] (h.serverPath == "" || old(r.URL.Path) == h.serverPath) && old(r.Method) != "POST" && old(r.Method) != "DELETE" && (old(r.Method) != "GET" || !h.enableGetSSE) ==> status(w) == 405
 //@ func httpServerHandler.handlePost
 //@   requires status(w) == 0
 //@   ensures[C03,C06 every-post-gets-a-status] status(w) != 0
@@ -533,10 +533,6 @@ package mcp
 //@ type httpServerHandler
 //@   init newHTTPServerHandler, withTransportSessionManager, withServerTransportLogger, withoutTransportSession, withServerPOSTSSEEnabled, withTransportGetSSEEnabled, withTransportNotificationBufferSize, withTransportStatelessMode, withTransportHTTPContextFuncs
 //@   final[C03,C04,C13] logger, sessionManager, requestHandler, enableSession, isStateless, responderFactory, notificationBufferSize, enablePostSSE, enableGetSSE, httpContextFuncs, serverPath, responseManager
-//@ type net/http.Request
-//@   final[C03,C04,C06,C11,C13] Method, URL, Header, Body
-//@ type net/url.URL
-//@   final[C03,C04,C06,C11,C13] Path
 
 //@ func jsonResponder.respond
 //@   modifies *, status(w), hval
